@@ -20,7 +20,7 @@ from zcsim.world import SimWorld
 ID = "C08"
 LEVEL = "fault_enumeration"
 HAS_CLOCK = False
-BUDGET = {"quick": (1000, 240), "thorough": (40000, 900)}
+BUDGET = {"quick": (1500, 240), "thorough": (60000, 1500)}
 RULE = (
     "A case is (scenario, injection): a generated schema, a text that the "
     "fault-free baseline load accepts, cut into 1..4 resources over file:/"
